@@ -298,7 +298,7 @@ def run(ck):
     rng = ck.rng
     thorough = ck.tier == 'thorough'
     ck.rule = ('every node_type x quad_type x num_nodes 1..16 on [0,1] plus seeded intervals from 8 classes (symmetric, random, negative, '
-               'offset 1e3 narrow/wide, width 1e-3 at 0 / off 0, width 1e3); quick: 2 classes per configuration with M <= 10, 1 class for every second M > 10;  a case is one live sweeper+CollBase object; distinct by (node_type, quad_type, M, interval class); '
+               'offset 1e3 narrow/wide, width 1e-3 at 0 / off 0, width 1e3); quick: 2 classes per configuration with M <= 10; of the configurations with M > 10 a seeded half is taken, each on [0,1] and (every second one) on 1 class;  a case is one live sweeper+CollBase object; distinct by (node_type, quad_type, M, interval class); '
                'non-trivial when M >= 2')
     ck.check_props(required=['C05_check_coll_sound', 'C05_weights_exact_for_all_polynomials',
                              'C05_Qmat_rows_exact_for_all_polynomials', 'C05_check_affine_sound',
@@ -361,9 +361,11 @@ def run(ck):
             for M in range(1, maxM + 1):
                 if should_reject(M, qt):
                     continue
+                if not thorough and M > 10 and (nt, qt, M) not in corpus and rng.random() < 0.5:
+                    continue          # quick: every second configuration with M > 10 (seeded); thorough covers all
                 todo = [('unit', 0.0, 1.0)] + corpus.get((nt, qt, M), [])
                 if thorough:
-                    chosen = classes + ['random', 'negative', 'offset1e3-wide', 'width1e3']
+                    chosen = classes + ['random']
                 else:
                     # quick: two classes for M <= 10, one class for every second M > 10 (validator cost grows like M^4.5)
                     chosen = rng.sample(classes, 2) if M <= 10 else (rng.sample(classes, 1) if (M + rng.randint(0, 1)) % 2 == 0 else [])
@@ -449,8 +451,8 @@ def run(ck):
         files.append((ck.write_gen('Tables_%02d.v' % j, text), gidx, bidx, aidx))
 
     def comp(f):
-        rc, out = ck.coqc(f[0], timeout=1500)
-        if rc != 0 and 'good_ok' not in out and 'vm_cast' not in out and 'Qed' not in out and 'convertible' not in out.lower():
+        rc, out = ck.coqc(f[0], timeout=3000)
+        if rc != 0 and 'forallb check_coll good' not in out:
             return rc, out, None
         if rc != 0:
             # the kernel refused `forallb check_coll good = true`: evaluate clause by clause to find the table
